@@ -188,6 +188,39 @@ def check_set_reading(prop: str, res: Result, repo: Repo):
                     if isinstance(base, ast.IfExp):
                         c, a, b = canon_ifexp(base)
                         ok_sr = ok_sr or (c == "self._sub_indicator" and a == want_sub and b == want_top)
+    # (c) path form: on every path the one store under self.name goes to the dict the `_sub_indicator` test on that path selects
+    #     (the dict may be held in a local first)
+    if not ok_sr:
+        from .structure import stmt_paths as _paths
+        import copy as _c
+
+        class _Sub1(ast.NodeTransformer):
+            def __init__(self, env):
+                self.env = env
+
+            def visit_Name(self, node):
+                return _c.deepcopy(self.env[node.id]) if isinstance(node.ctx, ast.Load) and node.id in self.env else node
+
+        verdicts = []
+        for path in _paths(st.node.body):
+            if path and isinstance(path[-1], ast.Raise):
+                continue
+            env, pol, got = {}, None, []
+            for item in path:
+                if isinstance(item, tuple) and item[0] == "if":
+                    t_, flipped = item[1].test, False
+                    while isinstance(t_, ast.UnaryOp) and isinstance(t_.op, ast.Not):
+                        t_, flipped = t_.operand, not flipped
+                    if ast.unparse(t_) in ("self._sub_indicator", "bool(self._sub_indicator)"):
+                        pol = item[2] != flipped
+                elif isinstance(item, ast.Assign):
+                    for t in item.targets:
+                        if isinstance(t, ast.Subscript) and ast.unparse(t.slice) == "self.name" and ast.unparse(item.value) == rd_p:
+                            got.append(ast.unparse(_Sub1(env).visit(_c.deepcopy(t.value))))
+                        elif isinstance(t, ast.Name) and t.id not in (rd_p,):
+                            env[t.id] = _Sub1(env).visit(_c.deepcopy(item.value))
+            verdicts.append(pol is not None and got == [want_sub if pol else want_top])
+        ok_sr = bool(verdicts) and all(verdicts)
     if ok_sr:
         res.ok(RULE, {"helper": "Indicator._set_reading", "writes": "helper readings to sub_indicators, top-level readings to indicators, keyed by self.name"}, nontrivial="_set_reading")
     else:
